@@ -880,3 +880,31 @@ def a_position_is_not_tested_by_its_truth(ctx):
         ctx.ok(f'{fi.qualname}:positions used', fi.node, f'{sorted(positions)} compared / used as index', fi)
     if not n:
         ctx.ok('lines are cut by split / partition', None, 'no position arithmetic in the de-framer')
+
+
+@rule('C07.R10', min_instances=1)
+def interpolated_text_is_never_a_format_string(ctx):
+    """the error path of RequestHandler.handle formats the stack with frappy.lib.formatExtendedStack / formatExtendedTraceback,
+    INSIDE its except clauses, with the repr of every local - request text included.  An f-string with interpolated values used
+    as the left operand of `%` (`f'%-20s = {shortrepr(value)}' % key`, a half converted format) makes that text part of the
+    format: one `%` in a request line raises TypeError / ValueError out of the handler, the connection handler ends and neither
+    this line nor the following ones get a reply"""
+    m = ctx.m
+    n = 0
+    hits = []
+    for q, fi in sorted(m.functions.items()):
+        if not (fi.module.name in ('frappy.lib', 'frappy.errors') or fi.module.name.startswith('frappy.protocol')):
+            continue
+        n += 1
+        for x in body_walk(fi.node, into_lambda=True):
+            if isinstance(x, ast.BinOp) and isinstance(x.op, ast.Mod) and isinstance(x.left, ast.JoinedStr) and any(isinstance(v, ast.FormattedValue) for v in x.left.values):
+                ctx.analysed(fi)
+                hits.append((fi, x))
+    for fi, x in hits:
+        ctx.bad(f'{fi.qualname}:interpolated text is not used as a format string', x,
+                f'`{src(x)[:100]}`: the interpolated value becomes part of the %-format; a `%` in it (any request text ends up in the locals that are printed) raises from inside the '
+                'error path of the request handler', fi)
+    if not hits:
+        ctx.ok('frappy.lib / frappy.protocol:interpolated text is not used as a format string', None, f'{n} functions scanned, no f-string with interpolations on the left of `%`')
+    if n < 20:
+        raise AnchorMissing('functions of frappy.lib / frappy.protocol not found')
